@@ -259,6 +259,7 @@ PROPS = {
         "level_note": "Trusts the fake engine's lifetime instrumentation; expiry is driven through an add-only hook that calls the cache's own cleanup pass.",
         "stages": [
             rapid_stage("cache-history", "TestC16", 300, 2500, tags="verif,vectors"),
+            {"name": "cache-history-fixed", "test": "TestC16Fixed", "tags": "verif,vectors", "quick": {"shards": 1, "timeout": 600}, "thorough": {"shards": 1, "timeout": 1500}},
             {"name": "cache-stress", "test": "TestC16Stress", "tags": "verif,vectors",
              "quick": {"checks": 40, "shards": 1, "timeout": 300, "race": True}, "thorough": {"checks": 150, "shards": 6, "timeout": 1500, "race": True}},
         ],
